@@ -901,6 +901,8 @@ def enumerate_mutations(c, rng, per_kind=2):
     if t is not None:
         out.append({"op": "drop_top"})
         out.append({"op": "rename_top", "name": "zz_top"})
+    elif sites:
+        out.append({"op": "add_top", "to": list(rng.choice(sites)), "name": "xtop"})
     return out
 
 
@@ -1204,6 +1206,11 @@ def apply_mutation(B, m):
         t.reference = None
     elif op == "rename_top":
         B.top_instance.name = m["name"]
+    elif op == "add_top":
+        t = sdn.Instance()
+        t.name = m["name"]
+        t.reference = B.libraries[m["to"][0]].definitions[m["to"][1]]
+        B.top_instance = t
     else:
         raise ValueError("unknown mutation " + op)
 
@@ -1286,7 +1293,7 @@ def enumerate_history_mutations(c, rng):
             out.append({"op": "insert_at", "what": "child", "lib": li, "def": di, "pos": 0,
                         "name": _fresh([x["name"] for x in d["instances"]], "hI"), "ref": list(rng.choice(leafs))})
     # the single mutations of the statement (and the correspondence-only ones), one site per kind
-    out.extend(m for m in enumerate_mutations(c, rng, per_kind=1) if m["op"] not in ("drop_top",))
+    out.extend(enumerate_mutations(c, rng, per_kind=1))
     return out
 
 
@@ -1800,6 +1807,8 @@ def _record(res, r, tag):
     res.dist("copy:" + tag)
     res.dist("impl:" + r.impl)
     res.dist("model:" + r.model)
+    res.dist("top-instance:%s/%s" % ("present" if r.ca.get("top") is not None else "none",
+                                     "present" if r.cb.get("top") is not None else "none"))
     if r.faithful:
         res.dist("faithful-copy")
     if not r.py_eq:
@@ -1881,6 +1890,14 @@ def shard(seed, idx, n_netlists, deadline_s, tier):
                 break
             shape = SHAPES[(idx + i) % len(SHAPES)]
             name, nl = gen_case_netlist(rng, shape)
+            if i % 3 == 2 or rng.random() < 0.1:
+                # a netlist without a top instance (a cell library, or a design before its top is chosen): every
+                # copy and every mutation below is then compared with NEITHER side having a top instance
+                t_ = nl.top_instance
+                if t_ is not None:
+                    nl.top_instance = None
+                    t_.reference = None
+                res.dist("original-without-top-instance")
             ca = cnet(nl)
             res.dist("shape:" + name)
             if i < 2 and idx == 0:
@@ -2008,7 +2025,8 @@ def _run_single(ctx, x, label):
 def run(ctx):
     ok = L.check_obligations(ctx, "Spydr/Compare", MODULES, ["drv_compare"], "Spydr/Compare/Audit.lean", THEOREMS)
     ctx.rule = ("netlists: gen.gen_netlist in 7 shapes (small/default/wide/deep/dense/one-library/partly-unnamed) plus "
-                "EDIF.properties, twin definitions, original identifiers and names with separator characters whose "
+                "EDIF.properties, twin definitions, original identifiers, no top instance in a third of the originals (and "
+                "copies that gain or lose it) and names with separator characters whose "
                 "(library, definition) / (instance, port) pairs collide as joined text; copies: rebuild through the API, clone(), "
                 "EDIF and Verilog compose+parse (of the generated netlist and of the already-read netlist); every kind of "
                 "single mutation of the copy from the statement's list at randomly chosen sites, plus renames / unnaming / "
